@@ -3,13 +3,13 @@
 # Confirms a seeded change in a scratch worktree of /repo HEAD: (1) applies, (2) the repository's own suite passes,
 # (3) the demonstration fails with the change and passes without it. On success stores it under /verif/seeded/<name>/.
 C=$1; NAME=$2; CFL=${3:--O1 -g -DNDEBUG}
-SRC=/tmp/mut_out/$C; WT=/tmp/confirm_$C
+SRC=${SRCBASE:-/tmp/mut_out}/$C; MUTWT=${MUTBASE:-/tmp/mut}/$C; WT=/tmp/confirm_$C
 git -C /repo worktree remove --force $WT >/dev/null 2>&1
 git -C /repo worktree add --detach $WT HEAD >/dev/null 2>&1 || exit 2
 trap "git -C /repo worktree remove --force $WT >/dev/null 2>&1" EXIT
 cd $WT
 D=$(mktemp -d /tmp/confirm_demo.XXXX)
-sed "s#/tmp/mut/$C#$WT#g" $SRC/demo.c > $D/demo.c
+sed "s#$MUTWT#$WT#g" $SRC/demo.c > $D/demo.c
 build() { gcc $CFL -I$WT/include $D/demo.c $WT/src/static.c -lpthread -o $D/$1 2>$D/$1.build.log; }
 build demo_orig || { echo "demo does not build on clean tree"; tail -5 $D/demo_orig.build.log; exit 2; }
 ( cd $D && timeout 300 ./demo_orig >$D/orig.out 2>&1 ); RO=$?
